@@ -1487,12 +1487,14 @@ pub fn write_report_with_timestamp(
     let total_count = file_count(groups.iter());
     let total_size = total_size(groups.iter());
 
+    // Building the filter resolves the roots in the file system, do it once
+    let filter = config.group_filter();
     let (redundant_count, redundant_size) = groups.iter().fold((0, FileLen(0)), |res, g| {
-        let count = g.redundant_count(&config.group_filter());
+        let count = g.redundant_count(&filter);
         (res.0 + count, res.1 + g.file_len * count as u64)
     });
     let (missing_count, missing_size) = groups.iter().fold((0, FileLen(0)), |res, g| {
-        let count = g.missing_count(&config.group_filter());
+        let count = g.missing_count(&filter);
         (res.0 + count, res.1 + g.file_len * count as u64)
     });
 
